@@ -104,3 +104,32 @@ for e in ENGINES:
         e["serves_properties"] = sorted(set(e["serves_properties"]) | {"C17", "C19"})
 ENGINES.append({"name": "gcv-witness", "path": "/verif/gcv/witness.py", "serves_properties": ["C03", "C12", "C13", "C15", "C19"],
                 "kind_free_text": "compile-fail / compile-pass witness corpus (probes/<ID>/*.rs): each program is compiled twice with rustc +nightly --emit=metadata against an rlib of the current tree (with and without --cfg bad); never run"})
+
+CLAIMED.update({
+    "C09": _c("abstract reachability of do_collection (exit structure of debt-driven calls) + credit consistency of every transition table + symbolic interpretation of the debt formula (polarity / ordering-domain analysis)",
+              "Claims ONLY the structural clauses: debt consulted before any work, re-checked after every unit, PayDebt exits only after a "
+              "false debt test or at the stop condition, credits at most once per unit, formula polarity and pairing, finish_cycle shape. "
+              "The inequalities (rho bound, heap factor, wake-up thresholds on concrete counts, zero debt as arithmetic) are NOT decided by "
+              "any sound static argument in reach and are listed in the evidence's not_decided on every run."),
+    "C14": _c("coverage rule on the root-set Collect chain + slot-table transition tables extracted by interpreting Slots::add/inc/dec over all well-formed short vectors + handle pairing / fetch contract by abstract interpretation + re-brand dominance",
+              "Slot reuse never changes what a live handle resolves to, the count moves by exactly one per handle event, handles are built "
+              "only paired with add/inc, and fetch re-brands only on the true edge of the set-identity test. The end-to-end survival history "
+              "is the composition with C01, not explored."),
+    "C15": _c("static inspection of derive expansions over a generated shape corpus (coverage analysis on derived MIR, const-evaluated NEEDS_TRACE) + rejection witnesses",
+              "Every generated shape's expansion is checked for complete field coverage per variant and the exact NEEDS_TRACE disjunction; "
+              "the macro itself is not proved (bounded-corpus argument, labelled as such)."),
+    "C16": _c("coverage analysis on the MIR of every impl Collect (def-use chains through reviewed total accessors, CFG loop-totality and conditional-trace rules, parameter coverage) + boolean exploration of NEEDS_TRACE, in every feature configuration",
+              "Every provided impl (72 default / 80 all features) is analysed, in every type-parameter position; third-party iterator "
+              "totality is trusted."),
+    "C18": _c("call-graph reachability + absent-drop-terminator rule after drop elaboration + CFG/dataflow rules on the slice builder + ordering-domain interpretation of copy_slice",
+              "Abandoned builders only deallocate, completion registers exactly once through assume_init, the slice builder destructs "
+              "exactly the initialised prefix, wrong-length copies are rejected through the builder's Drop. Value equality of contents "
+              "is not decided."),
+})
+for e in ENGINES:
+    if e["name"] in ("gcv-driver", "gcv-rules", "gcv-typestate"):
+        e["serves_properties"] = sorted(set(e["serves_properties"]) | {"C09", "C14", "C16", "C18"})
+    if e["name"] == "gcv-driver":
+        e["serves_properties"] = sorted(set(e["serves_properties"]) | {"C15"})
+ENGINES.append({"name": "gcv-corpus", "path": "/verif/gcv/corpus.py", "serves_properties": ["C15"],
+                "kind_free_text": "generated crate of derive(Collect) type shapes, type-checked (never run) through the driver against the current tree; expansions' MIR and const-evaluated NEEDS_TRACE inspected by the coverage analysis"})
